@@ -247,7 +247,7 @@ pub fn gen_world(r: &mut Rng) -> Vec<Tree> {
     ];
     let stranger = SocketAddr::new(IpAddr::V4(Ipv4Addr::new(66, 6, 6, 6)), 666);
     let nclients = r.range(1, 3) as usize;
-    let ids = [1u64, if r.chance(1, 4) { 1 } else { 2 }, 3];
+    let ids = [1u64, if r.chance(1, 3) { 1 } else { 2 }, 3];
     let mut next_token = 0u64;
     let mut new_token = |r: &mut Rng, ops: &mut Vec<Tree>, k: usize, now: u64| -> u64 {
         let tk = next_token;
@@ -280,6 +280,20 @@ pub fn gen_world(r: &mut Rng) -> Vec<Tree> {
         let tk = new_token(r, &mut ops, k, now);
         ops.push(l(vec![n(102u8), n(k as u64), n(now), n(tk)]));
     }
+    if nclients >= 2 && ids[0] == ids[1] && r.chance(2, 3) {
+        // one user, two tokens for the same client id: both are presented, then the handshake of one address
+        // is answered with the challenge issued for the other token
+        let (x, y) = if r.chance(1, 2) { (0u64, 1u64) } else { (1, 0) };
+        for k in [x, y] {
+            ops.push(l(vec![n(103u8), n(k), n(100 * MS)]));
+            ops.push(l(vec![n(150u8), n(k), n(0u8), n(0u8), n(0u8), n(0u8)]));
+        }
+        ops.push(l(vec![n(155u8), n(x), n(y), n(r.range(0, 300))]));
+        if r.chance(1, 2) {
+            ops.push(l(vec![n(155u8), n(y), n(x), n(r.range(0, 300))]));
+        }
+        ops.push(l(vec![n(116u8)]));
+    }
     let steps = r.range(25, 90);
     for _ in 0..steps {
         let k = r.below(nclients as u64);
@@ -291,7 +305,7 @@ pub fn gen_world(r: &mut Rng) -> Vec<Tree> {
                 (r.range(1, 4), r.below(12000), r.below(256))
             }
         };
-        let w: [u32; 21] = [14, 16, 14, 3, 3, 6, 9, 9, 5, 2, 2, 2, 3, 3, 3, 2, 10, 2, 2, 3, 4];
+        let w: [u32; 22] = [14, 16, 14, 3, 3, 6, 9, 9, 5, 2, 2, 2, 3, 3, 3, 2, 10, 2, 2, 3, 4, 3];
         match r.weighted(&w) {
             0 => {
                 // time passes for everybody (mostly), or for one endpoint only
@@ -392,6 +406,14 @@ pub fn gen_world(r: &mut Rng) -> Vec<Tree> {
                 // cross-use of challenges between sessions the attacker owns
                 let kc = r.below(nclients as u64);
                 ops.push(l(vec![n(155u8), n(k), n(kc), n(r.range(0, 300))]));
+            }
+            19 => {
+                // reflection: an endpoint's own datagrams come back to it
+                if r.chance(1, 2) {
+                    ops.push(l(vec![n(156u8), n(k), n(r.below(4))]));
+                } else {
+                    ops.push(l(vec![n(157u8), n(k), n(r.below(4))]));
+                }
             }
             18 => {
                 // the attacker presents client k's request from its own address first
